@@ -96,6 +96,9 @@ type pkgCtx struct {
 	ptrDecl    map[interface{}]bool   // parameter / receiver fields declared with a pointer type
 	methods    map[string]bool        // method names declared in the package (x.m without a call is a method value, not a field)
 	unsafeObj  map[string]bool        // package-level variables holding a standard-library object documented as not safe for concurrent use
+	importDirs map[string]string      // local import name -> directory of a package of this module
+	chanFuncs  map[string]bool        // functions and methods declared with a single channel result
+	timeNames  map[string]bool        // local names of the time import
 	namedChan  map[string]bool        // type X chan T declared in the package
 	chanStruct map[string]bool        // ... of which those with methods (rewritten to struct{ *vchan.Chan[T] })
 	structVars map[string]bool        // names declared with one of the latter types
@@ -200,6 +203,10 @@ var (
 	varNames                  []string // global id -> "pkg.name"
 )
 
+// allNamedChans[dir][X]: package dir declares a channel type X that is rewritten to a struct;
+// allNamedChanAlias[dir][X]: it declares a channel type X at all.
+var allNamedChans, allNamedChanAlias = map[string]map[string]bool{}, map[string]map[string]bool{}
+
 // resetOnly (first argument "-reset"): only the per-run re-initialisation of package-level
 // state is generated (C17 runs the real packages otherwise unmodified).
 var resetOnly bool
@@ -217,11 +224,18 @@ func main() {
 	var pkgs []*pkgCtx
 	nfiles := 0
 	for _, dir := range os.Args[3:] {
-		p := loadPkg(root, dir)
-		if p == nil {
-			continue
+		if p := loadPkg(root, dir); p != nil {
+			pkgs = append(pkgs, p)
 		}
-		pkgs = append(pkgs, p)
+	}
+	// the channel types every package declares are known before any file is rewritten: a
+	// package may use another one's (chanx.Box[ID])
+	for _, p := range pkgs {
+		p.namedChans()
+		allNamedChans[filepath.ToSlash(p.dir)] = p.chanStruct
+		allNamedChanAlias[filepath.ToSlash(p.dir)] = p.namedChan
+	}
+	for _, p := range pkgs {
 		if !resetOnly {
 			p.classify()
 		}
@@ -229,7 +243,28 @@ func main() {
 			p.rewriteFile(fc)
 			nfiles++
 		}
-		p.writeReset(root)
+	}
+	// packages below a non-root "internal" directory cannot be imported by the harness: the
+	// package that owns the directory resets them on its behalf (unless that would be an import
+	// cycle: then their state is not reset between runs, and the scan says so)
+	forward := map[string][]*pkgCtx{}
+	for _, q := range pkgs {
+		if owner, hidden := hiddenOwner(q.dir); hidden && len(q.resetFns) > 0 {
+			var op *pkgCtx
+			for _, o := range pkgs {
+				if o.dir == owner {
+					op = o
+				}
+			}
+			if op == nil || q.importsPkg(op.dir) {
+				notes = append(notes, q.dir+": package-level state is not reset between runs (not importable by the harness)")
+				continue
+			}
+			forward[owner] = append(forward[owner], q)
+		}
+	}
+	for _, p := range pkgs {
+		p.writeReset(root, forward[p.dir])
 	}
 	sort.Strings(unsupported)
 	sort.Strings(i2off)
@@ -248,7 +283,7 @@ func main() {
 	imports, calls := "", ""
 	k := 0
 	for _, p := range pkgs {
-		if len(p.resetFns) == 0 {
+		if _, hidden := hiddenOwner(p.dir); hidden || (len(p.resetFns) == 0 && len(forward[p.dir]) == 0) {
 			continue
 		}
 		imports += fmt.Sprintf("\tpkg%d %q\n", k, "go.lstv.dev/util/"+filepath.ToSlash(p.dir))
@@ -831,14 +866,26 @@ func isChanExpr(e ast.Expr) bool {
 // and where a bare channel is needed (select clauses, comparison with nil) the names declared
 // with such a type get a ".Chan" appended (by name, like everything else here).
 func (p *pkgCtx) namedChans() {
+	if p.namedChan != nil {
+		return
+	}
 	p.namedChan, p.chanStruct, p.structVars = map[string]bool{}, map[string]bool{}, map[string]bool{}
+	p.importDirs = map[string]string{}
 	for _, fc := range p.files {
+		for local, ip := range fc.imports {
+			if strings.HasPrefix(ip, "go.lstv.dev/util/") {
+				p.importDirs[local] = strings.TrimPrefix(ip, "go.lstv.dev/util/")
+			}
+		}
 		for _, d := range fc.f.Decls {
 			if gd, ok := d.(*ast.GenDecl); ok && gd.Tok == token.TYPE {
 				for _, sp := range gd.Specs {
 					ts := sp.(*ast.TypeSpec)
-					if _, ok := ts.Type.(*ast.ChanType); ok && !ts.Assign.IsValid() && ts.TypeParams == nil {
+					if _, ok := ts.Type.(*ast.ChanType); ok && !ts.Assign.IsValid() {
 						p.namedChan[ts.Name.Name] = true
+						if ts.TypeParams != nil {
+							p.chanStruct[ts.Name.Name] = true // there are no generic aliases: always the struct form
+						}
 					}
 				}
 			}
@@ -851,6 +898,12 @@ func (p *pkgCtx) namedChans() {
 				if st, ok := t.(*ast.StarExpr); ok {
 					t = st.X
 				}
+				if ix, ok := t.(*ast.IndexExpr); ok {
+					t = ix.X
+				}
+				if ix, ok := t.(*ast.IndexListExpr); ok {
+					t = ix.X
+				}
 				if id, ok := t.(*ast.Ident); ok && p.namedChan[id.Name] {
 					p.chanStruct[id.Name] = true
 				}
@@ -859,7 +912,32 @@ func (p *pkgCtx) namedChans() {
 	}
 }
 
+// namedChanRef: does the type expression name a channel type declared in this module (X, X[T],
+// pkg.X, pkg.X[T])? struct reports whether that type is rewritten to the struct form.
+func (p *pkgCtx) namedChanRef(e ast.Expr) (is, strct bool) {
+	switch x := e.(type) {
+	case *ast.Ident:
+		return p.namedChan[x.Name], p.chanStruct[x.Name]
+	case *ast.IndexExpr:
+		return p.namedChanRef(x.X)
+	case *ast.IndexListExpr:
+		return p.namedChanRef(x.X)
+	case *ast.SelectorExpr:
+		if id, ok := x.X.(*ast.Ident); ok && id.Obj == nil {
+			if dir, ok := p.importDirs[id.Name]; ok {
+				return allNamedChanAlias[dir][x.Sel.Name], allNamedChans[dir][x.Sel.Name]
+			}
+		}
+	case *ast.ParenExpr:
+		return p.namedChanRef(x.X)
+	}
+	return false, false
+}
+
 func (p *pkgCtx) isChanTypeExpr(e ast.Expr) bool {
+	if is, _ := p.namedChanRef(e); is {
+		return true
+	}
 	switch x := e.(type) {
 	case *ast.Ident:
 		return p.namedChan[x.Name]
@@ -877,6 +955,9 @@ func (p *pkgCtx) isChanTypeExpr(e ast.Expr) bool {
 }
 
 func (p *pkgCtx) structChanTypeExpr(e ast.Expr) bool {
+	if is, st := p.namedChanRef(e); is {
+		return st
+	}
 	switch x := e.(type) {
 	case *ast.Ident:
 		return p.chanStruct[x.Name]
@@ -907,6 +988,21 @@ func (p *pkgCtx) isStructChanName(e ast.Expr) bool {
 // this is how len(ch), cap(ch) and range over a channel are recognised.
 func (p *pkgCtx) chanNames() {
 	p.namedChans()
+	p.chanFuncs, p.timeNames = map[string]bool{}, map[string]bool{}
+	for _, fc := range p.files {
+		for local, ip := range fc.imports {
+			if ip == "time" {
+				p.timeNames[local] = true
+			}
+		}
+		for _, d := range fc.f.Decls {
+			if fd, ok := d.(*ast.FuncDecl); ok && fd.Type.Results != nil && len(fd.Type.Results.List) == 1 && len(fd.Type.Results.List[0].Names) <= 1 {
+				if p.isChanTypeExpr(fd.Type.Results.List[0].Type) {
+					p.chanFuncs[fd.Name.Name] = true
+				}
+			}
+		}
+	}
 	mark := func(name string, typ ast.Expr, val ast.Expr) {
 		if (typ != nil && p.isChanTypeExpr(typ)) || (val != nil && p.isChanTypeExpr(val)) {
 			p.chans[name] = true
@@ -949,6 +1045,21 @@ func (p *pkgCtx) chanNames() {
 
 func (p *pkgCtx) isChanName(e ast.Expr) bool {
 	switch x := e.(type) {
+	case *ast.CallExpr:
+		// time.Tick(d), time.After(d), and calls of functions the package declares with a
+		// channel result
+		switch f := x.Fun.(type) {
+		case *ast.SelectorExpr:
+			if (f.Sel.Name == "Tick" || f.Sel.Name == "After") && len(x.Args) == 1 {
+				if id, ok := f.X.(*ast.Ident); ok && id.Obj == nil && (id.Name == "time" || p.timeNames[id.Name]) {
+					return true
+				}
+			}
+			return p.chanFuncs[f.Sel.Name]
+		case *ast.Ident:
+			return p.chanFuncs[f.Name]
+		}
+		return false
 	case *ast.Ident:
 		return p.chans[x.Name]
 	case *ast.SelectorExpr:
@@ -1753,6 +1864,42 @@ func (p *pkgCtx) rewriteConcurrency(fc *fileCtx) {
 				}
 				break
 			}
+			// go f(a) / go pkg.F(a) with f a declared function (maybe generic: no function value to
+			// bind without instantiating it): bind the arguments only and call it by name
+			directName := ""
+			switch f := x.Call.Fun.(type) {
+			case *ast.Ident:
+				if f.Obj != nil && f.Obj.Kind == ast.Fun {
+					directName = f.Name
+				}
+			case *ast.SelectorExpr:
+				if id, ok := f.X.(*ast.Ident); ok && id.Obj == nil && p.importDirs[id.Name] != "" {
+					directName = id.Name + "." + f.Sel.Name
+				}
+			}
+			if directName != "" {
+				if len(x.Call.Args) == 0 {
+					fc.repl(x.Go, x.Call.Pos(), "vsched.Go(func() { ")
+					fc.ins(x.Call.End(), " })", 6)
+					break
+				}
+				var ns []string
+				for i := range x.Call.Args {
+					ns = append(ns, fmt.Sprintf("vsimA%d", i))
+				}
+				dots := ""
+				if x.Call.Ellipsis.IsValid() {
+					dots = "..."
+				}
+				fc.repl(x.Go, x.Call.Lparen+1, "func() { "+strings.Join(ns, ", ")+" := ")
+				end := "; vsched.Go(func() { " + directName + "(" + strings.Join(ns, ", ") + dots + ") }) }()"
+				if x.Call.Ellipsis.IsValid() {
+					fc.repl(x.Call.Ellipsis, x.Call.Rparen+1, end)
+				} else {
+					fc.repl(x.Call.Rparen, x.Call.Rparen+1, end)
+				}
+				break
+			}
 			names := []string{"vsimF"}
 			call := "vsimF("
 			for i := range x.Call.Args {
@@ -1830,10 +1977,10 @@ func (p *pkgCtx) rewriteConcurrency(fc *fileCtx) {
 						}
 					}
 					// make(X, n) for a channel type X declared in the package
-					if tid, ok := x.Args[0].(*ast.Ident); ok && p.namedChan[tid.Name] {
+					if is, st := p.namedChanRef(x.Args[0]); is {
 						fc.need["vchan"] = true
-						name := tid.Name
-						if p.chanStruct[name] {
+						name := fc.text(x.Args[0])
+						if st {
 							// X{vchan.MakeLike(X{}.Chan, n)}
 							fc.repl(x.Pos(), x.Args[0].End(), name+"{vchan.MakeLike("+name+"{}.Chan")
 							fc.repl(x.Rparen, x.Rparen+1, ")}")
@@ -2104,11 +2251,43 @@ func (p *pkgCtx) hookNested(fc *fileCtx, s ast.Stmt) {
 	})
 }
 
-func (p *pkgCtx) writeReset(root string) {
-	if len(p.resetFns) == 0 {
+// hiddenOwner: for a package below an "internal" directory that is not the module's own, the
+// directory of the package that may import it.
+func hiddenOwner(dir string) (string, bool) {
+	parts := strings.Split(filepath.ToSlash(dir), "/")
+	for i, e := range parts {
+		if e == "internal" && i > 0 {
+			return strings.Join(parts[:i], "/"), true
+		}
+	}
+	return "", false
+}
+
+func (p *pkgCtx) importsPkg(dir string) bool {
+	want := "go.lstv.dev/util/" + filepath.ToSlash(dir)
+	for _, fc := range p.files {
+		for _, ip := range fc.imports {
+			if ip == want {
+				return true
+			}
+		}
+	}
+	return false
+}
+
+func (p *pkgCtx) writeReset(root string, children []*pkgCtx) {
+	if len(p.resetFns) == 0 && len(children) == 0 {
 		return
 	}
 	body := "// Code generated by vsim rewrite. DO NOT EDIT.\n\npackage " + p.name + "\n\n"
+	childCalls := ""
+	for i, q := range children {
+		body += fmt.Sprintf("import vsimchild%d %q\n", i, "go.lstv.dev/util/"+filepath.ToSlash(q.dir))
+		childCalls += fmt.Sprintf("\tvsimchild%d.VsimReset() // on behalf of the harness, which may not import it\n", i)
+	}
+	if len(children) > 0 {
+		body += "\n"
+	}
 	reg := ""
 	var names []string
 	for n := range p.instr {
@@ -2127,7 +2306,7 @@ func (p *pkgCtx) writeReset(root string) {
 		}
 		reg = "\tdefer func() { recover() }() // a path through a nil pointer has no address yet\n" + reg
 	}
-	body += "// VsimReset puts the package-level state back to its initial value (three passes cover\n// initialisers that depend on each other), then re-runs the init functions.\nfunc VsimReset() {\n"
+	body += "// VsimReset puts the package-level state back to its initial value (three passes cover\n// initialisers that depend on each other), then re-runs the init functions.\nfunc VsimReset() {\n" + childCalls
 	var vars, inits []string
 	for _, fn := range p.resetFns {
 		if strings.HasPrefix(fn, "vsimReset") {
